@@ -92,7 +92,7 @@ NOT_YET = {}
 
 CHECKS.update({
     "C05": ("Theorems C05_numpy_mask, C05_pandas_mask, C05_xarray_mask, C05_frontends_agree, C05_selectRows(_zip): each front end's "
-            "subsetting mechanism equals starting <= t < ending for every window and time axis (pandas: distinct row labels), and the "
+            "subsetting mechanism equals starting <= t < ending for every window and time axis (pandas: any row labels, repeated ones included — after the repair of F-22), and the "
             "mask restricts every column alike; the correspondence runs every front end on generated tables / configs and compares the "
             "yielded ContextResults and a probe test's received arguments with direct calls of the real tests on the rows IoosQc.specMask "
             "selects. What a test returns on those rows is C03-C14's business. C05_sys_*: the composed pipeline model IoosQc.runStream / systemRun "
